@@ -86,6 +86,7 @@ struct vf_in {
 	unsigned char kib;		/* keys already in the current key block: 0/1 */
 	unsigned char k0_blocks;	/* size of that key in undo blocks: 1/2 */
 	unsigned int k0_fsblk;
+	unsigned char base_hi;		/* BIGBLK */
 	unsigned int num_keys;
 	unsigned long long offset;	/* data->offset */
 	unsigned long long block;	/* operation arguments */
@@ -121,6 +122,29 @@ static __u32 ref_key_crc(unsigned long long fileblk, unsigned long long size)
 	return s;
 }
 
+#ifdef NO_CRC_CHECK
+/* T-style reference for the cheap crc stub (crc' = crc ^ len ^ first byte, so every call's LENGTH is visible in the value):
+ * a key's checksum must be the chain, from ~0, of one call per saved undo block over exactly the bytes of that block that
+ * belong to the key (TDS, or the short rest for the last one): what e2undo will read back are key->size bytes */
+static __u32 ref_key_crc_t(unsigned long long fileblk, unsigned long long size)
+{
+	__u32 s = ~0U;
+	int c, u;
+	for (c = 0; c < MAXCH; c++)
+		if ((unsigned long long) c * TDS < size) {
+			unsigned long long len = size - (unsigned long long) c * TDS;
+			unsigned char first = 0;
+			if (len > TDS)
+				len = TDS;
+			for (u = 0; u < UCAP; u++)
+				if ((unsigned long long) u == fileblk + c)
+					first = vf_uf[u][0];
+			s = s ^ (__u32) len ^ first;
+		}
+	return s;
+}
+#endif
+
 /* read `total` keys starting with the key block at KB0, as e2undo's loader does */
 static void ref_walk(unsigned long long total, unsigned long long fs_bs, unsigned long long pp)
 {
@@ -154,7 +178,9 @@ static void ref_walk(unsigned long long total, unsigned long long fs_bs, unsigne
 			if ((unsigned long long) j < nj) {
 				const unsigned char *k = kbuf + 16 + 16 * j;
 				unsigned long long fsblk = ref_le(k, 8), size = ref_le(k + 12, 4);
-				unsigned long long fileblk = lblk, start = fsblk * fs_bs;
+				unsigned long long fileblk = lblk, start = fsblk * fs_bs - vf_base;
+				PROP(fsblk * fs_bs >= vf_base && fsblk * fs_bs - vf_base < DEVCAP,
+				     "key fsblk, read as little-endian 64 bits, addresses the saved range (all 8 bytes recorded)");
 				__u32 crc = (__u32) ref_le(k + 8, 4);
 				PROP(size >= 1 && size <= (unsigned long long) MAXCH * TDS, "key size is sane");
 				/* e2undo refuses the WHOLE undo file if E2UNDO_MAX_EXTENT_BLOCKS * blocksize < key size ("block N is too long") */
@@ -171,6 +197,8 @@ static void ref_walk(unsigned long long total, unsigned long long fs_bs, unsigne
 				}
 #ifndef NO_CRC_CHECK
 				PROP(crc == ref_key_crc(fileblk, size), "key crc is the crc of exactly the bytes e2undo reads for it");
+#else
+				PROP(crc == ref_key_crc_t(fileblk, size), "key checksum was computed over exactly key->size bytes of the saved data (chained per saved block)");
 #endif
 				rw_kib = j + 1;
 			}
@@ -184,7 +212,7 @@ int main(void)
 {
 	io_channel ch = &vf_chan;
 	struct undo_key_block *keyb = (struct undo_key_block *) vf_keyb_store;
-	unsigned long long lo, hi, L, undo0, nk0, total, pp, mp, ui, k0_start = 0, k0_size = 0;
+	unsigned long long lo, hi, base_blk = 0, L, undo0, nk0, total, pp, mp, ui, k0_start = 0, k0_size = 0;
 	unsigned char w0[NW];
 	errcode_t rc = 0;
 	int i, cnt0, touched, in_w0, in_w1;
@@ -197,6 +225,7 @@ int main(void)
 	vf_data.tdb_written = 1;
 	vf_data.written_block_map = (ext2fs_block_bitmap) &vf_bm_obj;
 	vf_data.keyb = keyb;
+	vf_keyb_ptr = keyb;
 	vf_data.key_blk_num = KB0;
 	vf_data.hdr.block_size = TDS;
 
@@ -212,7 +241,14 @@ int main(void)
 	vf_data.offset = IN.offset;
 #endif
 	/* ASSUME: written_block_map ids are absolute device undo blocks: id = fs-relative undo block + offset/tdb_data_size (undo_write_tdb's numbering); the checks below use the map only through "marked before / marked after" */
-	vf_wbase = (unsigned long long) vf_data.offset / TDS;
+#ifdef BIGBLK
+	/* BIGBLK: the modelled window of NBLK undo blocks starts at channel block base_blk = k * 2^32 (k symbolic, 1 <= k < 2^8:
+	 * block numbers up to 2^40); k a multiple of 3 keeps the window on an undo-block boundary for BS=16 */
+	ASSUME(IN.base_hi >= 1 && (BS % TDS == 0 || IN.base_hi % 3 == 0));
+	base_blk = (unsigned long long) IN.base_hi << 32;
+	vf_base = base_blk * BS;
+#endif
+	vf_wbase = (unsigned long long) vf_data.offset / TDS + vf_base / TDS;
 #define WIDX(m) (m)	/* index in vf_W of fs-relative undo block m */
 
 	/* ---- device */
@@ -263,9 +299,9 @@ int main(void)
 #ifndef NO_CRC_CHECK
 		c0 = ref_key_crc(KB0 + 1, k0_size);
 #else
-		c0 = IN.num_keys ^ 0x5a5a5a5aU;
+		c0 = ref_key_crc_t(KB0 + 1, k0_size);	/* Inv: the existing key's checksum covers exactly its bytes */
 #endif
-		ref_put_le(kb + 16, 8, IN.k0_fsblk);
+		ref_put_le(kb + 16, 8, base_blk + IN.k0_fsblk);
 		ref_put_le(kb + 24, 4, c0);
 		ref_put_le(kb + 28, 4, k0_size);
 		ref_put_le(kb, 4, 0xCADECADEULL);
@@ -307,6 +343,16 @@ int main(void)
 		if ((unsigned long long) i * TDS == lo)
 			ASSUME(vf_W[WIDX(i)] == 0);
 #endif
+#ifdef AT_END_NEWKEY
+	/* the device ends INSIDE the undo block the request starts in (short last block), that block is not saved yet and is not
+	 * contiguous with the key already in the current key block: a NEW key is opened for a short block */
+	ASSUME(L > (lo / TDS) * TDS && L < (lo / TDS) * TDS + TDS);
+	for (i = 0; i < NBLK; i++)
+		if ((unsigned long long) i == lo / TDS)
+			ASSUME(vf_W[WIDX(i)] == 0);
+	if (IN.kib)
+		ASSUME(k0_start + k0_size != (lo / TDS) * TDS);
+#endif
 #if OFFMODE == 2
 #ifdef OFF_CARRY
 	/* the carry case: start of the request within its undo block + offset remainder reaches the next undo block */
@@ -321,13 +367,13 @@ int main(void)
 	ASSUME(((hi - 1) / TDS) * TDS < L);
 #endif
 #if OP == OP_WRITE
-	rc = undo_write_blk64(ch, IN.block, CNT, obuf);
+	rc = undo_write_blk64(ch, base_blk + IN.block, CNT, obuf);
 #elif OP == OP_WRITE_BYTE
-	rc = undo_write_byte(ch, IN.boff, (int) IN.bsize, obuf);
+	rc = undo_write_byte(ch, vf_base + IN.boff, (int) IN.bsize, obuf);
 #elif OP == OP_ZEROOUT
-	rc = undo_zeroout(ch, IN.block, IN.count);
+	rc = undo_zeroout(ch, base_blk + IN.block, IN.count);
 #elif OP == OP_DISCARD
-	rc = undo_discard(ch, IN.block, IN.count);
+	rc = undo_discard(ch, base_blk + IN.block, IN.count);
 #else
 #error OP
 #endif
@@ -335,6 +381,13 @@ int main(void)
 	PROP(vf_real_ops == 1, "exactly one operation reaches the backing channel");
 	PROP(vf_wlo == lo && vf_whi == hi, "the backing channel is asked to modify exactly the requested range");
 	PROP(vf_rchan.block_size == BS, "backing channel block size restored");
+
+	/* ---- T-style trace: one checksum call per saved data block, over exactly the bytes stored for it */
+	PROP(vf_crc_ndata == vf_uf_ndata && vf_uf_ndata <= VF_TRACE_MAX, "one data checksum call per data block written to the undo file");
+	for (i = 0; i < VF_TRACE_MAX; i++)
+		if (i < vf_uf_ndata)
+			PROP(vf_crc_dlen[i] == vf_uf_dlen[i], "the checksum call covers exactly the bytes stored for that block (data_size)");
+	PROP(!vf_addr_oob, "env: backing requests stay inside the modelled window");
 
 	/* ---- read the undo file back */
 	PROP(vf_data.num_keys >= nk0, "num_keys only grows");
@@ -362,7 +415,7 @@ int main(void)
 		     "only the current key block and blocks behind the old end of the undo file are written");
 	}
 	if (IN.kib)
-		PROP(rw_k0_fsblk == IN.k0_fsblk && rw_k0_size >= k0_size, "existing key keeps its position and only grows");
+		PROP(rw_k0_fsblk == base_blk + IN.k0_fsblk && rw_k0_size >= k0_size, "existing key keeps its position and only grows");
 
 	/* the old part of the undo file is immutable */
 	ui = IN.ui;
